@@ -777,12 +777,25 @@ func (lb *LoadBalancer) proxyRequest(backend *Backend, w http.ResponseWriter, r 
 	}()
 
 	// Forward the request to the selected backend
-	if handlerTimeout := lb.handlerTimeout(); handlerTimeout > 0 && r.Header.Get("Upgrade") == "" {
+	if handlerTimeout := lb.handlerTimeout(); handlerTimeout > 0 {
 		// End-to-end handler timeout (server.timeouts.handler): bounds the whole exchange with the
 		// backend, including a response body that stalls after the header has been received
-		ctx, cancel := context.WithTimeout(r.Context(), handlerTimeout)
-		defer cancel()
-		r = r.WithContext(ctx)
+		if r.Header.Get("Upgrade") == "" {
+			ctx, cancel := context.WithTimeout(r.Context(), handlerTimeout)
+			defer cancel()
+			r = r.WithContext(ctx)
+		} else {
+			// A request that offers a protocol upgrade is bounded in the same way until the
+			// backend really switches protocols (101): from then on the connection is a tunnel
+			// (WebSocket) that lives as long as both sides want. A backend that ignores the
+			// offer and answers an ordinary response gets no exemption.
+			ctx, cancel := context.WithCancel(r.Context())
+			defer cancel()
+			timer := time.AfterFunc(handlerTimeout, cancel)
+			defer timer.Stop()
+			rw.onHijack = func() { timer.Stop() }
+			r = r.WithContext(ctx)
+		}
 	}
 	backend.ReverseProxy.ServeHTTP(rw, r)
 	completed = true
@@ -854,6 +867,8 @@ type responseWriter struct {
 	// (request/trace IDs, headers added by plugins)
 	preset     http.Header
 	sawInterim bool
+	// onHijack runs when the connection is taken over for a protocol upgrade
+	onHijack func()
 }
 
 // WriteHeader captures the status code
@@ -899,6 +914,9 @@ func (rw *responseWriter) Hijack() (net.Conn, *bufio.ReadWriter, error) {
 	h, ok := rw.ResponseWriter.(http.Hijacker)
 	if !ok {
 		return nil, nil, fmt.Errorf("response writer does not implement http.Hijacker")
+	}
+	if rw.onHijack != nil {
+		rw.onHijack()
 	}
 	return h.Hijack()
 }
